@@ -221,6 +221,22 @@ def fuzz_app(kept_pages=False):
             shared["file"] = FileObjResponse(io.BytesIO(b"0123456789"))
         return shared["file"]
 
+    # file answers that carry no body: 304 / 204 over a file object, with and without the server's file wrapper
+    @app.route("/file304")
+    def file304(req):
+        from poorwsgi.response import FileObjResponse
+        return FileObjResponse(io.BytesIO(b"unchanged"), status_code=304, headers={"ETag": '"v1"'})
+
+    @app.route("/file204")
+    def file204(req):
+        from poorwsgi.response import FileObjResponse
+        return FileObjResponse(io.BytesIO(b"nothing"), status_code=204)
+
+    # an endpoint whose exception message cannot be encoded (a file name decoded with surrogateescape)
+    @app.route("/surrogate")
+    def surrogate(req):
+        raise ValueError("unsupported upload name %s" % os.fsdecode(b"report-\xff\xe9.txt"))
+
     @app.route("/auth")
     def auth(req):
         return str(sorted(req.authorization.items()))
@@ -243,13 +259,38 @@ def extra_oracles(rng, tier):
     body_pool = [b"", b"a=1&b=2", b'{"a": 1}', b"{bad", b"--B\r\nContent-Disposition: form-data; name=\"a\"\r\n\r\n1\r\n--B--\r\n",
                  b"\xff\xfe", b"x" * 70000]
     seen = 0
-    for i in range(n):
+    PATHS = ["/", "/echo", "/cookie", "/range", "/rangeh", "/rangef", "/rangeg", "/reused", "/reusedf", "/file304", "/file204", "/surrogate", "/auth", "/host", "/u/a/1", "/u/\xc3\xa9/x", "/f", "/d/", "/d",
+                           "", "no-slash", "/\xff\xfe", "/a\x00b", "//", "/../f", "/u/a/99999999999999999999", "/debug-info",
+                           "/" + "a" * 5000, "/\xe2\x82", "/d/../f", "/%2e%2e/f", "/d/x.txt"]
+    # every path once per debug setting, file wrapper and GET/HEAD before the random environs
+    directed = [(p, d, w, m) for p in PATHS for d in (None, "On") for w in (False, True) for m in ("GET", "HEAD")]
+    for i in range(n + len(directed)):
         env = {"SERVER_NAME": "srv", "SERVER_PORT": "80", "SERVER_PROTOCOL": rng.choice(["HTTP/1.1", "HTTP/1.0", "HTTP/0.9"]),
                "wsgi.url_scheme": "http", "wsgi.errors": io.StringIO()}
+        if i < len(directed):
+            path, dbg, wrap, meth = directed[i]
+            env.update({"REQUEST_METHOD": meth, "PATH_INFO": path, "QUERY_STRING": "", "wsgi.input": io.BytesIO(b"")})
+            if dbg:
+                env["poor_Debug"] = dbg
+            if wrap:
+                env["wsgi.file_wrapper"] = lambda f, bs=8192: iter(lambda: f.read(bs), b"")
+            body = b""
+            calls = []
+            try:
+                app = apps[0]
+                chunks = list(app(dict(env), lambda s, h: calls.append((s, h))))
+                outcome = ("answered", calls, chunks) if calls else ("silent", chunks)
+            except BaseException as err:
+                outcome = ("escaped", err, calls)
+            seen += 1
+            bad = check_answer("environ", outcome)
+            if bad:
+                shown = {k: (v if isinstance(v, str) else "present") for k, v in env.items() if k not in ("wsgi.errors", "wsgi.input")}
+                kind = type(outcome[1]).__name__ if outcome[0] == "escaped" else outcome[0]
+                out.append(Violation("c01-environ:%s" % kind, shown, bad))
+            continue
         env["REQUEST_METHOD"] = rng.choice(["GET", "HEAD", "POST", "PUT", "PATCH", "DELETE", "OPTIONS", "BREW", "get", "", "G<T"])
-        path = rng.choice(["/", "/echo", "/cookie", "/range", "/rangeh", "/rangef", "/rangeg", "/reused", "/reusedf", "/auth", "/host", "/u/a/1", "/u/\xc3\xa9/x", "/f", "/d/", "/d",
-                           "", "no-slash", "/\xff\xfe", "/a\x00b", "//", "/../f", "/u/a/99999999999999999999", "/debug-info",
-                           "/" + "a" * 5000, "/\xe2\x82", "/d/../f", "/%2e%2e/f", "/d/x.txt"])
+        path = rng.choice(PATHS)
         if rng.random() < 0.97:
             env["PATH_INFO"] = path
         env["QUERY_STRING"] = rng.choice(["", "a=1", "a=1&a=2&b", "%zz=%", "a" * 3000, "\xff=\xfe", "a=&&=b", " x "])
